@@ -194,6 +194,8 @@ class ClohessyWiltshire(AnalyticalPropagator):
             accel_mat[3:, :] = self._mat3 @ accel_mat[3:, :] @ self._mat3.T
 
         new = evol_mat @ orb + accel_mat @ accel
-        new.date = orb.date + dt
+        # the requested date itself: orb.date + dt is another reading when a leap
+        # second lies in between
+        new.date = date
 
         return new
